@@ -435,6 +435,38 @@ def run(ck):
                 gm += [int(x) for x in re.findall(r"-?\d+", m.group(1))]
     ck.cov["group_cases_evaluated_in_coq"] = len(gterms) if not gerrs else 0
     ck.cov["group_model_mismatches"] = len(gm)
+    # (3c) every top-level block is as wide as the body: first Outlook table and first max-width of the body, for each kind of block alone
+    #      (wrappers: listed known finding wrapper-ignores-body-width) and behind a section; the image of a hero fills hero width - padding
+    tl = {"section": '<mj-section>%s</mj-section>' % COLI, "section-fw": '<mj-section full-width="full-width">%s</mj-section>' % COLI,
+          "section-bg": '<mj-section background-url="https://x/b.png">%s</mj-section>' % COLI,
+          "hero": '<mj-hero background-color="#222"><mj-image src="https://x/a.png"/><mj-text>H</mj-text></mj-hero>',
+          "hero-fixed": '<mj-hero mode="fixed-height" height="300px" background-url="https://x/h.png"><mj-image src="https://x/a.png"/></mj-hero>'}
+    tjobs = []
+    for Wb in (320, 500, 600, 800):
+        for kind, blk in tl.items():
+            for lead in ("", '<mj-section><mj-column><mj-text>t</mj-text></mj-column></mj-section>', "<mj-raw><p>r</p></mj-raw>"):
+                tjobs.append((Wb, kind, bool(lead), '<mjml><mj-body width="%dpx">%s%s</mj-body></mjml>' % (Wb, lead, blk)))
+    tres, _ = common.run_jobs(hb, "render", [{"id": i, "src": j[3]} for i, j in enumerate(tjobs)])
+    for i, (Wb, kind, led, src) in enumerate(tjobs):
+        h = (tres.get(i) or {}).get("html") or ""
+        b = vl.body_inner(h) or ""
+        ck.count("top-level:" + src, Wb != 600, tags=["top-level-block", "block:" + kind])
+        if led:     # look at the last top-level block only
+            cut = b.find("</div><!--[if mso | IE]></td></tr></table>") if "<p>r</p>" not in b else b.find("<p>r</p>")
+            b2 = b[cut:] if cut >= 0 else b
+        else:
+            b2 = b
+        tw = re.findall(r'<table[^>]*role="presentation"[^>]*width="(\d+)"', b2) or re.findall(r'<table[^>]* width="(\d+)"', b2)
+        mw = re.findall(r"max-width:(\d+)px", b2)
+        if not tw or not mw:
+            failing.append(({"src": src, "outlook_tables": tw, "max_widths": mw}, "cannot locate the Outlook table / max-width of a top-level block"))
+        elif int(tw[0]) != Wb or int(mw[0]) != Wb:
+            failing.append(({"src": src, "body_width": Wb, "first_outlook_table_width": int(tw[0]), "first_max_width": int(mw[0])},
+                            "a top-level %s is not as wide as the body" % kind))
+        elif kind == "hero":
+            iw = re.findall(r'<img[^>]* width="(\d+)"', b2)
+            if iw and int(iw[0]) != Wb - 50:
+                failing.append(({"src": src, "body_width": Wb, "image_width": int(iw[0])}, "the image of a top-level hero does not fill the hero's width minus its padding"))
     # (4) divider: Outlook width = container - left - right padding, shorthand (1, 2, 4 values) overridden by padding-left / padding-right
     dres = []
     for sh, (l0, r0) in (("10px", (10, 10)), ("0 25px", (25, 25)), ("0 10px 0 40px", (40, 10)), ("10px 20px 10px 60px", (60, 20)), (None, (25, 25))):
